@@ -96,7 +96,7 @@ CodeFresh(r, rq, t) ==
   LET age  == CodeAge(r, t)
       l0   == CodeLife(r)
       life == IF rq.ma >= 0 THEN MinI(l0, rq.ma) ELSE l0
-      ms   == IF rq.ms = NoArg THEN CAP + CAP ELSE IF rq.ms >= 0 THEN rq.ms ELSE 0
+      ms   == IF rq.ms = NoArg THEN CAP ELSE IF rq.ms >= 0 THEN rq.ms ELSE 0
       st0  == age >= life
       st1  == IF st0 /\ ms > 0 /\ age < life + ms THEN FALSE ELSE st0
   IN IF rq.mf > 0 /\ life - age < rq.mf THEN [stale |-> TRUE, age |-> age, life |-> life, zero |-> FALSE]
